@@ -2,6 +2,7 @@ package props
 
 import (
 	"encoding/hex"
+	"fmt"
 	"encoding/json"
 	"sync"
 
@@ -54,5 +55,6 @@ func c01ReplayGeneric(raw json.RawMessage, w *sup.W) {
 		c01ByteCase(w, cs.Seed, cs.Path[1], ser)
 		return
 	}
-	c01Verify(w, full, &c01State{env: env, path: cs.Path, seed: cs.Seed}, ser)
+	w.SetCase(cs)
+	sup.Guard(w, fmt.Sprintf("%s %v", cs.Seed, cs.Path), func() { c01Verify(w, full, &c01State{env: env, path: cs.Path, seed: cs.Seed}, ser) })
 }
